@@ -104,7 +104,8 @@ def run(module: Path, cfg: Path, *, label: str, workers: int | str | None = None
     meta = wd / "meta"
     if meta.exists():
         shutil.rmtree(meta, ignore_errors=True)
-    jopts = [f"-Xmx{heap}", "-XX:+UseParallelGC"]
+    # -Xss: trace specs fold long recorded logs with recursive operators (deep Java recursion in TLC)
+    jopts = [f"-Xmx{heap}", "-XX:+UseParallelGC", "-Xss256m"]
     if dfs:
         jopts.append("-Dtlc2.tool.queue.IStateQueue=StateDeque")
     cmd = ["java", *jopts, "-cp", JAR_CP, "tlc2.TLC", "-workers", str(workers), "-metadir", str(meta),
